@@ -140,6 +140,16 @@ def render_block(block: list[dict], ind: int, out: list[str], uses: Any, sfx: st
             if s["orelse"]:
                 out.append(f"{pad}else:")
                 render_block(s["orelse"], ind + 1, out, maps or uses, sfx, form)
+        elif k == "whilev":
+            name = f"s{s['id']}{sfx}"
+            out.append(f"{pad}{name} = " + {"mlist": "[0]", "elist": "[]", "tuple": "(0,)", "one": "1", "zero": "0"}[s["t"]])
+            out.append(f"{pad}while {name}:")
+            if s["t"] == "mlist":
+                out.append(f"{pad}    {name}.pop()")
+            render_block(s["body"], ind + 1, out, maps or uses, sfx, form)
+            if s["orelse"]:
+                out.append(f"{pad}else:")
+                render_block(s["orelse"], ind + 1, out, maps or uses, sfx, form)
         elif k in ("while", "for", "forv"):
             head = (f"for {s['v']}{sfx} in it():" if k == "forv" else "for _ in it():" if k == "for"
                     else ("while True:" if s["true"] else "while cond():"))
@@ -547,6 +557,13 @@ SELFTEST: list[tuple[str, list[dict], list[list], list[int], str]] = [
                            _u("x", 3)], [[3, [111]]], [], "drift:reported"),
     ("match-guard-dev", [{"k": "match", "v": "x", "id": 1, "cases": [{"pat": "cap", "guard": True, "id": 111, "body": [{"k": "return", "id": 2}]}]},
                          _u("x", 3)], [[3, [0]]], [], "dev:match-capture-dropped-when-guard-fails"),
+    # while <known local>: a never-true test skips the body, the popped one-element list runs it exactly once
+    ("whilev-never", [{"k": "whilev", "t": "zero", "id": 1, "body": [_a("x", 2)], "orelse": []}, _u("x", 3)], [[3, [2]]], [],
+     "viol:ReachingDefinitions"),
+    ("whilev-once", [{"k": "whilev", "t": "mlist", "id": 1, "body": [_a("x", 2)], "orelse": []}, _u("x", 3)], [[3, [0]]], [],
+     "viol:ReachingDefinitions"),
+    ("whilev-always", [_a("x", 1), {"k": "whilev", "t": "tuple", "id": 2, "body": [_a("x", 3), {"k": "break", "id": 4}], "orelse": []}, _u("x", 5)],
+     [[5, [1]]], [], "viol:ReachingDefinitions"),
     # the unbound marker and the diagnostic must go together
     ("marker", [_u("x", 1)], [[1, []]], [], "drift:uninit-marker-vs-diagnostic"),
 ]
@@ -587,7 +604,8 @@ def run(check: core.Check) -> None:
             ("finally5", "ScopeGenEmit", "ScopeGen.finally.cfg"),
             ("binders4", "ScopeGenEmit", "ScopeGen.binders.cfg"),
             ("inner4", "ScopeGenEmit", "ScopeGen.inner.cfg"),
-            ("match5", "ScopeGenEmit", "ScopeGen.match.cfg")]
+            ("match5", "ScopeGenEmit", "ScopeGen.match.cfg"),
+            ("whiletest5", "ScopeGenEmit", "ScopeGen.whiletest.cfg")]
     if not quick:
         jobs += [("finally6", "ScopeGenEmit", "ScopeGen.finally6.cfg"),
                  ("nested6-model-only", "ScopeGen", "ScopeGen.nested6.cfg"),
@@ -615,7 +633,8 @@ def run(check: core.Check) -> None:
                          "model: augmented assignment, import, walrus-if, with-as, for target, except-as; if / for / with / try "
                          "nesting, one variable); inner4 (thorough 5 on the model: comprehension / lambda reads, first iterable, "
                          "comprehension / lambda / class-body bindings that must not leak, walrus in a comprehension; if / for); match5 "
-                         "(match statements with one or two cases: capture, sequence capture, wildcard, guards; nested in if / match)")
+                         "(match statements with one or two cases: capture, sequence capture, wildcard, guards; nested in if / match); "
+                         "whiletest5 (`while s:` with s a local bound to [0] popped by the body / [] / (0,) / 1 / 0, nested in if)")
     judge(check, progs, "tlc-exhaustive")
     # targeted slice: try / suppressing with nested in if-branches, one variable, depth 3 (5 statements exhaustively on
     # the model; replayed exhaustively in both tiers; 6 statements model-checked in thorough)
@@ -655,6 +674,10 @@ def run(check: core.Check) -> None:
     mprogs = [p for p in core.emitted_json(tlc.get("match5")) if _has_kind(p["prog"], "match")]
     mprogs = _sample(rnd, mprogs, 1500 if quick else 20000)
     judge(check, mprogs, "tlc-match", mode="nodes")
+    # while tests that are known locals: a one-element list the body pops, an empty list, a non-empty tuple, 1, 0 (the loop
+    # inside if-branches; visit_While's always_entered must hold for the immutable always-true values only)
+    wprogs = _sample(rnd, core.emitted_json(tlc.get("whiletest5")), 3000 if quick else 20000)
+    judge(check, wprogs, "tlc-while-test")
     sim = core.simulate_cases("ScopeGenEmit", "ScopeGen.sim.cfg", 120 if quick else 12000, depth=30, seed=check.seed + 9,
                               check=check)
     judge(check, sim, "tlc-simulate")
